@@ -229,12 +229,10 @@ def runCase (inp obs : String) : CaseResult :=
         | _ => true
       { model := model, agree := b == r1 && d == r0, stmtModel := stmtModel, stmtImpl := stmtImpl, tags := tags,
         nontrivial := !a.all (· == "P") && !cut,
-        klass := if c.prop == "C05" && !stmtImpl then c05Class c
-                 else if (c.prop == "C04" || c.prop == "C01") && !stmtImpl then c04Class c else "" }
+        klass := if c.prop == "C05" && !stmtImpl then c05Class c else "" }
     | .error w, _ | _, .error w =>
       { model := "declined:" ++ w, agree := false, stmtModel := true, stmtImpl := stmtCfg, unmodelled := true,
         tags := ("declined:" ++ w) :: tags, nontrivial := !a.all (· == "P"),
-        klass := if c.prop == "C05" && !stmtCfg then c05Class c
-                 else if (c.prop == "C04" || c.prop == "C01") && !stmtCfg then c04Class c else "" }
+        klass := if c.prop == "C05" && !stmtCfg then c05Class c else "" }
 
 end Grol.EvalSuite
